@@ -87,13 +87,14 @@ func hexImportWithSize(re *regexp.Regexp, input string) (*BMNumber, error) {
 		}
 
 		newNumber := BMNumber{}
-		newNumber.number = make([]byte, hexSize)
+		// hexSize is a number of bits (a multiple of 8): the pattern takes hexSize/8 bytes
+		newNumber.number = make([]byte, hexSize/8)
 
 		for i := 0; i < len(decoded); i++ {
 			newNumber.number[i] = decoded[len(decoded)-1-i]
 		}
 
-		for i := len(decoded); i < hexSize; i++ {
+		for i := len(decoded); i < hexSize/8; i++ {
 			newNumber.number[i] = 0
 		}
 
